@@ -309,6 +309,17 @@ def rule_b(ctx: Context, R: Reporter):
     pd = cfg.postdominates(n.id, loop.id) or not cfg.reaches(loop.id, cfg.exit.id, blocked=[n.id])
     R.check("C12.b", "the final evidence is stored on every path from loop exit to return", pd, fi, a.call,
             msg=f"{fi.short}: some path from the loop exit to the return skips the final logz update", key="final-logz-all-paths")
+    # ... and on every path from the entry: run() has no way out (e.g. an early return on the resume path when the
+    # restored state already meets the stopping rule) that by-passes the final evidence
+    early = cfg.reaches(cfg.entry.id, cfg.exit.id, blocked=[n.id])
+    wit = None
+    if early:
+        p_ = cfg.find_path(cfg.entry.id, cfg.exit.id, blocked=[n.id])
+        rets_ = [cfg.nodes[i] for i in (p_ or []) if cfg.nodes[i].kind == "stmt" and isinstance(cfg.nodes[i].stmt, ast.Return)]
+        wit = rets_[-1].stmt if rets_ else None
+    R.check("C12.b", "no return of run() by-passes the final evidence at beta=1", not early, fi, wit if wit is not None else a.call,
+            msg=f"{fi.short}: a path from the entry reaches `{unparse(wit)[:40] if wit is not None else 'the end'}` without the final `logz` update: run() then returns with the evidence "
+                f"of the last reweighting step (computed before the last batch was committed) -- and without the end-of-run bookkeeping that follows it", key="final-logz-from-entry")
     # evidence accessor returns key logz
     acc = [f for f in ctx.prog.functions.values() if f.cls is fi.cls and f is not fi and any(isinstance(r, ast.Return) and isinstance(r.value, ast.Tuple) and len(r.value.elts) == 2 for r in walk_no_nested(f.node))
            and any(x.mode == "read" and x.key == "logz" for x in ctx.state.in_func(f))]
@@ -828,6 +839,7 @@ def variants():
         Variant("d-swap-return", "bad", replace_expr(core, "SamplerCore.compute_posterior", "(x, weights, logl)", "(x, logl, weights)"), ["C12.d"]),
         Variant("h-facade-partial-filter", "bad", _facade_filter(False), ["C12.h"], quick=True),
         Variant("h-benign-facade-bound-result", "benign", _facade_filter(True)),
+        Variant("b-early-return-on-resume", "bad", insert_before(core, "SamplerCore.run_sampling", "from .tools import ProgressBar", "if resume_state_path is not None and not self._not_termination():\n    return"), ["C12.b"], quick=True),
         Variant("benign-rename-idx", "benign", alpha_rename(core, "SamplerCore.compute_posterior", "idx", "sel"), quick=True),
         Variant("benign-guard-demorgan", "benign", replace_expr(core, "SamplerCore._not_termination", "1.0 - beta >= 0.0001 or ess < getattr(self, 'n_total', 0)", "not (1.0 - beta < 0.0001 and ess >= getattr(self, 'n_total', 0))"), quick=True),
         Variant("benign-hoist-ntotal", "benign", replace_stmt(core, "SamplerCore._not_termination", "return 1.0 - beta >= 0.0001 or ess < getattr(self, 'n_total', 0)", "target = getattr(self, 'n_total', 0)\nreturn 1.0 - beta >= 0.0001 or ess < target")),
